@@ -42,7 +42,7 @@ _CFG_ACTIVE = None
 TOLP_PROBE, TOLW_PROBE, TOLO_PROBE = 0.1, 2e-2, 1e-3
 FLOORS = {
     "quick": {"distinct_nontrivial": 4, "mon": {"pairs_compared": 12, "solve_pairs": 4}},
-    "thorough": {"distinct_nontrivial": 150, "mon": {"pairs_compared": 200, "solve_pairs": 150}},
+    "thorough": {"distinct_nontrivial": 80, "mon": {"pairs_compared": 200, "solve_pairs": 80}},
 }
 
 
